@@ -60,6 +60,11 @@ CHECKS = {
    text="compress.Writer.Compress and compress.Reader.Read/readBlock are executed symbolically: (a) 1..2 frames of symbolic payloads, every method, every read size: decompressed bytes == payload and EOF afterwards; (b) a fully symbolic 25-byte header + tail: no allocation request above the documented 128 MiB limits, no panic; (c) every single-byte alteration (offset enumerated over the whole frame, new value symbolic) is rejected, with a *CorruptedDataErr carrying the stored checksum when the length fields are intact, and the Read after the failure hands out nothing; (d) every proper prefix of a frame is rejected.",
    ref="DESIGN.md §4 C05",
    note="bounds: payload <=3 (quick)/6 bytes, <=2 frames, read sizes 1..3/5; CityHash128 is an uninterpreted function with a per-path no-collision assumption; LZ4/LZ4HC/ZSTD are an opaque codec pair (levels, real bit streams outside); method None is interpreted byte for byte"),
+ "C08": dict(
+   level="model_checking",
+   text="proto.Reader (bufio + io.ReadFull + binary.ReadUvarint) and compress.Reader are executed over a harness transport that returns the SAME symbolic stream in pieces - one byte per Read, two pieces at every offset, and all 2^(n-1) segmentations of the leading bytes - for every block shape of C01 and for two-frame compressed streams; the solver decides that values, row counts and bytes consumed equal the single-segment outcome, and that a cut stream still fails under each segmentation.",
+   ref="DESIGN.md §4 C08",
+   note="bounds: rows<=1 (quick)/2, all segmentations of the first 5 (quick)/8 bytes, one-byte delivery and every two-piece split for the whole stream; the client-level part of the property (read timeouts between packets retried by Do's receive loop) is covered by the C03/C04 harness family when built, not here"),
 }
 
 NA = {
